@@ -56,7 +56,17 @@ func TestChildMember(t *testing.T) {
 	for i := 0; i < 200; i++ {
 		dm.Put(context.Background(), fmt.Sprintf("k%d", i), "v") // every partition of every member holds a fragment of "d"
 	}
+	// the id of the coordinator: internal.node.updaterouting looks at its table only when the request names it
+	coord := uint64(0)
+	if ms, err := c.Members[0].DB.NewEmbeddedClient().Members(context.Background()); err == nil {
+		for _, m := range ms {
+			if m.Coordinator {
+				coord = m.ID
+			}
+		}
+	}
 	fmt.Printf("READY %s %s\n", c.Members[0].Name, c.Members[1].Name)
+	fmt.Printf("COORD %d\n", coord)
 	io.Copy(io.Discard, os.Stdin)
 	os.Exit(0)
 }
@@ -65,6 +75,7 @@ type child struct {
 	cmd    *exec.Cmd
 	stdin  io.WriteCloser
 	addrs  []string
+	coord  string // id of the coordinator, substituted for the token "@COORD"
 	exited chan struct{}
 	out    *strings.Builder
 	mu     sync.Mutex
@@ -94,6 +105,8 @@ func startChild() (*child, error) {
 			line := sc.Text()
 			if strings.HasPrefix(line, "READY ") && !got {
 				ch.addrs = strings.Fields(line)[1:]
+			} else if strings.HasPrefix(line, "COORD ") && !got {
+				ch.coord = strings.TrimPrefix(line, "COORD ")
 				got = true
 				ready <- nil
 			} else if strings.HasPrefix(line, "CHILD-ERROR") {
@@ -147,6 +160,10 @@ func (c *child) stop() {
 	case <-c.exited:
 	case <-time.After(3 * time.Second):
 		c.cmd.Process.Kill()
+		select {
+		case <-c.exited:
+		case <-time.After(3 * time.Second):
+		}
 	}
 }
 
@@ -271,7 +288,14 @@ func (ch *child) send(v vector, member int) result {
 	defer c.Close()
 	payload := v.raw
 	if payload == nil {
-		payload = frame(v.args)
+		args := v.args
+		for i, a := range args {
+			if a == "@COORD" {
+				args = append([]string{}, args...)
+				args[i] = ch.coord
+			}
+		}
+		payload = frame(args)
 	}
 	r := bufio.NewReader(c)
 	for _, pre := range v.pre {
@@ -427,6 +451,36 @@ func structured() []string {
 
 var xs []string
 
+// routingTables are payloads of internal.node.updaterouting that carry the right number of partitions (7) and must still
+// be refused: the handler dereferences every route and every partition id once the coordinator id and the count match.
+func routingTables() []string {
+	member := map[string]any{"Name": "127.0.0.1:1", "NameHash": 1, "ID": 1, "Birthdate": 1}
+	route := map[string]any{"Owners": []any{member}, "Backups": []any{}}
+	mk := func(f func(i uint64) (uint64, any)) string {
+		m := map[uint64]any{}
+		for i := uint64(0); i < 7; i++ {
+			k, v := f(i)
+			m[k] = v
+		}
+		b, _ := msgpack.Marshal(m)
+		return string(b)
+	}
+	return []string{
+		mk(func(i uint64) (uint64, any) { return i, nil }),                                                      // no route
+		mk(func(i uint64) (uint64, any) { return i + 100, route }),                                             // ids outside the table
+		mk(func(i uint64) (uint64, any) { return i << 60, route }),                                             // huge ids
+		mk(func(i uint64) (uint64, any) { return i, map[string]any{"Owners": []any{}, "Backups": []any{}} }), // nobody owns the partition
+		mk(func(i uint64) (uint64, any) { return i, map[string]any{} }),
+		mk(func(i uint64) (uint64, any) { return i, map[string]any{"Owners": nil, "Backups": nil} }),
+		mk(func(i uint64) (uint64, any) {
+			if i == 3 {
+				return i, nil
+			}
+			return i, route
+		}),
+	}
+}
+
 func alphabet(s slot, lockKey *int) []string {
 	switch s {
 	case sD:
@@ -571,6 +625,9 @@ func TestC16(t *testing.T) {
 			}
 		}
 	}
+	for _, rt := range routingTables() {
+		vs = append(vs, vector{args: []string{"internal.node.updaterouting", rt, "@COORD"}}, vector{args: []string{"INTERNAL.NODE.UPDATEROUTING", rt, "@COORD"}})
+	}
 	exhaustive := len(vs)
 	// the order matters: a request may leave something behind (a stored entry, a subscription, a lock) that a later request
 	// stumbles over.  The second half of the run repeats a seeded sample of the vectors in shuffled order.
@@ -637,7 +694,21 @@ func TestC16(t *testing.T) {
 	outcomes := map[string]int{}
 	var samples []any
 	nontrivial := 0
+	unanswered := map[int]int{} // per member: framed requests that got no answer since the child was started
+	wedged, sent := 0, 0
 	for n, v := range vs {
+		if unanswered[0]+unanswered[1] >= 3 && !ch.dead() {
+			// three framed requests went unanswered - each after more than 20 s: (a part of) the member is wedged (each of
+			// them is in the trace).  A
+			// fresh child lets the remaining vectors be judged on their own instead of waiting 20 s each.
+			ch.stop()
+			unanswered = map[int]int{}
+			wedged++
+			if wedged > 8 {
+				t.Logf("the member was wedged %d times, stopping after %d vectors", wedged, n)
+				break
+			}
+		}
 		if ch.dead() {
 			restarts++
 			if restarts > 60 {
@@ -653,11 +724,15 @@ func TestC16(t *testing.T) {
 			replenish(ch.addrs[(n/80)%len(ch.addrs)], n/80)
 		}
 		res := ch.send(v, n)
+		sent++
 		// periodically make sure the other member still serves
 		if res.outcome != "crash" && n%25 == 0 {
 			res.otherok = res.otherok && ping(ch.addrs[(n+1)%len(ch.addrs)])
 		}
 		outcomes[res.outcome]++
+		if res.outcome == "timeout" && v.raw == nil && !v.pubsub {
+			unanswered[n%len(ch.addrs)]++
+		}
 		cmdName, nargs, framed := "raw", 0, false
 		classes := []string{}
 		if v.raw == nil {
@@ -704,7 +779,7 @@ func TestC16(t *testing.T) {
 	if err := tw.Close(); err != nil {
 		t.Fatal(err)
 	}
-	sum := map[string]any{"evaluations": len(vs), "exhaustive_vectors": exhaustive, "random_vectors": nrandom, "raw_streams": nraw,
+	sum := map[string]any{"evaluations": sent, "vectors_built": len(vs), "exhaustive_vectors": exhaustive, "random_vectors": nrandom, "raw_streams": nraw,
 		"distinct_nontrivial": nontrivial, "outcomes": outcomes, "crashes": crashes, "samples": samples, "max_anomalies_per_vector": maxAnom}
 	b, _ := json.MarshalIndent(sum, "", " ")
 	os.WriteFile(filepath.Join(out, "c16.summary.json"), b, 0o644)
